@@ -583,6 +583,47 @@ L3 = gen.lattice(3, 2)
 L4 = gen.lattice(4, 1)
 
 
+def g_layouts(ctx, rng, i):
+    """The same objects handed over in another memory layout (Fortran order, transposed views, broadcast copies) and with homogeneous
+    coordinates other than 1: the queries that read normalised coordinates run under the twin monitor."""
+    import geometer as g
+
+    dim = 2 + i % 2
+    k, m = int(rng.integers(2, 4)), int(rng.integers(2, 4))
+
+    def layout(a, how):
+        if how == 0:
+            return np.asfortranarray(a)
+        if how == 1:
+            return np.ascontiguousarray(np.moveaxis(a, -1, 0)).transpose(*range(1, a.ndim), 0)  # a transposed view
+        if how == 2:
+            return a[..., ::-1][..., ::-1]  # negatively strided twice
+        return np.array(a)
+
+    def hom(c, w):
+        return np.concatenate([c * w, w], axis=-1)
+
+    how = i % 4
+    # segments / polygons (three axes), points with two collection axes
+    A = gen.coords(rng, (k, dim), 5, "int").astype(float)
+    D = gen.nonzero_vec(rng, dim, 3).astype(float)
+    W = rng.choice([1.0, 2.0, -1.0, 0.5, 4.0], size=(k, 2, 1))
+    seg = g.SegmentCollection(layout(hom(np.stack([A, A + 2 * D], axis=1), W), how))
+    q = g.PointCollection(layout(hom(A + D, rng.choice([1.0, 2.0, -3.0], size=(k, 1))), how % 2 * 3))
+    sq = np.array([[0, 0], [2, 0], [2, 2], [0, 2]], dtype=float)
+    if dim == 3:
+        sq = np.concatenate([sq, np.ones((4, 1))], axis=1)
+    polys = np.stack([sq * (j + 1) + gen.coords(rng, (dim,), 3, "int") for j in range(k)])
+    pol = g.PolygonCollection(layout(hom(polys, rng.choice([1.0, 2.0, -1.0, 0.5], size=(k, 4, 1))), how))
+    grid = g.PointCollection(layout(hom(gen.coords(rng, (k, m, dim), 4, "int").astype(float), rng.choice([1.0, 2.0, -2.0, 0.5], size=(k, m, 1))), how))
+    for step in (lambda: seg.contains(q), lambda: seg.midpoint, lambda: seg.length, lambda: pol.area, lambda: pol.contains(q) if dim == 2 else None,
+                 lambda: grid + g.Point(*([1] * dim)), lambda: grid * 2, lambda: grid - grid, lambda: seg + g.Point(*([1] * dim)), lambda: g.dist(grid, g.Point(*([0] * dim)))):
+        try:
+            step()
+        except Exception:
+            pass
+
+
 def g_eq_lattice(ctx, rng, i):
     """== on lattice objects: every non-zero multiple equal, non-multiples different, all kinds."""
     import geometer as g
@@ -623,4 +664,5 @@ GROUPS = [
     {"name": "constructors", "fn": g_constructors, "quick": 400, "thorough": 4000},
     {"name": "catalogue", "fn": g_catalogue, "quick": 48, "thorough": 480},
     {"name": "eq_lattice", "fn": g_eq_lattice, "quick": 600, "thorough": 6000},
+    {"name": "layouts", "fn": g_layouts, "quick": 160, "thorough": 1600},
 ]
